@@ -9,6 +9,7 @@ import (
 	"fmt"
 	"go/ast"
 	"go/parser"
+	"go/printer"
 	"go/token"
 	"path/filepath"
 	"strconv"
@@ -50,6 +51,14 @@ func scrSelName(x ast.Expr, field string) (string, bool) {
 		return "", false
 	}
 	return id.Name, true
+}
+
+func scrNodeText(fset *token.FileSet, n ast.Node) string {
+	var sb strings.Builder
+	if err := printer.Fprint(&sb, fset, n); err != nil {
+		return ""
+	}
+	return sb.String()
 }
 
 func scrLeanStr(s string) string { return strconv.Quote(s) }
@@ -223,6 +232,36 @@ func extractScript(repo, out string) ([]string, error) {
 	if !found {
 		return nil, fmt.Errorf("script extractor: `switch o.code` not found in evalStack")
 	}
+	// evalWithRoot: is a template that is exactly one path evaluated as an existence test?
+	//   if len(s.template) == 1 { _, bare = s.template[0].(Expr) }   and   if bare { match = sstack[0] != Nothing }
+	bareAssign, bareUse, sawEvalWithRoot := false, false, false
+	for _, d := range sf.Decls {
+		fd, ok := d.(*ast.FuncDecl)
+		if !ok || fd.Name.Name != "evalWithRoot" || fd.Recv == nil {
+			continue
+		}
+		sawEvalWithRoot = true
+		ast.Inspect(fd.Body, func(n ast.Node) bool {
+			is, ok := n.(*ast.IfStmt)
+			if !ok {
+				return true
+			}
+			src := scrNodeText(fset, is.Cond)
+			if src == "len(s.template) == 1" && len(is.Body.List) == 1 && scrNodeText(fset, is.Body.List[0]) == "_, bare = s.template[0].(Expr)" {
+				bareAssign = true
+			}
+			if src == "bare" && len(is.Body.List) == 1 && scrNodeText(fset, is.Body.List[0]) == "match = sstack[0] != Nothing" {
+				bareUse = true
+			}
+			return true
+		})
+	}
+	if !sawEvalWithRoot {
+		return nil, fmt.Errorf("script extractor: method evalWithRoot not found in jp/script.go")
+	}
+	if bareAssign != bareUse {
+		return nil, fmt.Errorf("script extractor: the bare-path test of evalWithRoot is only half there (assignment %v, use %v)", bareAssign, bareUse)
+	}
 	// equation.go: builders and buildScript
 	var builders [][2]string
 	var buildCases [][]string
@@ -311,6 +350,7 @@ func extractScript(repo, out string) ([]string, error) {
 		b.WriteString(scrLeanStrList(c))
 	}
 	fmt.Fprintf(&b, "]\n\ndef evalHasDefault : Bool := %v\n\n", evalDefault)
+	fmt.Fprintf(&b, "/-- evalWithRoot has `if len(s.template) == 1 { _, bare = s.template[0].(Expr) }` and `if bare { match = sstack[0] != Nothing }` -/\ndef bareExistence : Bool := %v\n\n", bareAssign && bareUse)
 	b.WriteString("/-- exported builder functions of jp/equation.go and the operator variable they install -/\ndef builders : List (String × String) := [")
 	for i, e := range builders {
 		if i > 0 {
